@@ -436,6 +436,13 @@ fn define_inherent_impl(
         return;
     }
 
+    report_uninferable_type_params(
+        diagnostics,
+        &impl_generics_tast,
+        std::iter::once(&for_ty),
+        &format!("the impl for {:?}", for_ty),
+    );
+
     let key = if !impl_block.generics.is_empty() {
         let Some(constr_name) = super::util::try_constr_name(&for_ty) else {
             super::util::push_ice(
@@ -499,6 +506,18 @@ fn define_inherent_impl(
             }
             None => tast::Ty::TUnit,
         };
+
+        let own_generics: Vec<tast::TastIdent> = m
+            .generics
+            .iter()
+            .map(|g| tast::TastIdent(g.to_ident_name()))
+            .collect();
+        report_uninferable_type_params(
+            diagnostics,
+            &own_generics,
+            params.iter().chain(std::iter::once(&ret)),
+            &format!("method {}", method_name_str),
+        );
 
         let impl_method_ty = tast::Ty::TFunc {
             params: params.clone(),
@@ -566,6 +585,7 @@ fn define_inherent_impl(
 
 fn define_function(env: &mut PackageTypeEnv, diagnostics: &mut Diagnostics, func: &hir::Fn) {
     let name = func.name.clone();
+    let diagnostics_before = diagnostics.len();
     let tparam_names = type_param_name_set(&func.generics);
     let generics_tast: Vec<tast::TastIdent> = func
         .generics
@@ -589,6 +609,14 @@ fn define_function(env: &mut PackageTypeEnv, diagnostics: &mut Diagnostics, func
         }
         None => tast::Ty::TUnit,
     };
+    if diagnostics.len() == diagnostics_before {
+        report_uninferable_type_params(
+            diagnostics,
+            &generics_tast,
+            params.iter().chain(std::iter::once(&ret)),
+            &format!("function {}", name),
+        );
+    }
     env.current_mut().value_env.funcs.insert(
         name,
         FnScheme {
@@ -601,6 +629,46 @@ fn define_function(env: &mut PackageTypeEnv, diagnostics: &mut Diagnostics, func
             origin: FnOrigin::User,
         },
     );
+}
+
+/// A type parameter is only ever determined by the argument and result types of a call (there
+/// is no syntax to pass it explicitly): one that the signature never mentions can not be
+/// instantiated, and its uses in the body would survive monomorphisation.
+fn report_uninferable_type_params<'a>(
+    diagnostics: &mut Diagnostics,
+    generics: &[tast::TastIdent],
+    signature: impl Iterator<Item = &'a tast::Ty> + Clone,
+    owner: &str,
+) {
+    for generic in generics {
+        if !signature.clone().any(|ty| mentions_type_param(ty, &generic.0)) {
+            diagnostics.push(Diagnostic::new(
+                Stage::Typer,
+                Severity::Error,
+                format!(
+                    "Type parameter {} of {} does not occur in its signature and can never be inferred",
+                    generic.0, owner
+                ),
+            ));
+        }
+    }
+}
+
+fn mentions_type_param(ty: &tast::Ty, param: &str) -> bool {
+    match ty {
+        tast::Ty::TParam { name } => name == param,
+        tast::Ty::TTuple { typs } => typs.iter().any(|t| mentions_type_param(t, param)),
+        tast::Ty::TArray { elem, .. } | tast::Ty::TVec { elem } | tast::Ty::TRef { elem } => {
+            mentions_type_param(elem, param)
+        }
+        tast::Ty::TFunc { params, ret_ty } => {
+            params.iter().any(|t| mentions_type_param(t, param)) || mentions_type_param(ret_ty, param)
+        }
+        tast::Ty::TApp { ty, args } => {
+            mentions_type_param(ty, param) || args.iter().any(|t| mentions_type_param(t, param))
+        }
+        _ => false,
+    }
 }
 
 pub fn go_symbol_name(name: &str) -> String {
